@@ -211,6 +211,12 @@ def run(ctx, prop):
                     disagree.append({"case": {"id": case["id"], "method": idl.render_member(m).strip(), "call": call}, "difference": d_})
                 if len(samples) < 4 and a["env"] and len(m["params"]) >= 3:
                     samples.append({"call": call, "method": idl.render_member(m).strip(), "envelope": a["env"], "impl": a["impl"], "ret": a["ret"]})
+    if prop == "C03":
+        # the bytes a skeleton ACCEPTS: fixed-size slots (bundles in particular) at exactly the
+        # prescribed size and no other, for every skeleton backend
+        from .c04 import exact_size_pass
+        rest_, _p = split_padded(gen.coverage_case("C03-exact"))
+        exact_size_pass(ctx, rest_, oracle_fail, hist, excused_classes=("smallObjStruct", "bundlePadding"))
     known_lines = []
     for kid, k in listed.items():
         if kid in known_seen:
